@@ -71,10 +71,18 @@ struct Kern {
         bool fault(const char *what)
         {
                 report_fault(rr, h, gc.fi, what);
+                if (t_iu_used && rr.oracle.compare(0, 4, "C05.") == 0) {
+                        rr.oracle = "C05.int_upper_half";
+                        rr.detail = strf("int argument passed with %08x in the upper half of its register (mask %x): ", t_iu.dirt, t_iu.mask) + rr.detail;
+                }
                 return false;
         }
         void disagree(const char *fn, uint64_t got, uint64_t want, size_t len)
         {
+                if (t_iu_used) {
+                        rr.fail("C05.int_upper_half", strf("%s(len %zu) with %08x in the upper half of an int argument register (mask %x): result %llx, with clean registers %llx - the function used more than its arguments declare", fn, len, t_iu.dirt, t_iu.mask, (unsigned long long) got, (unsigned long long) want));
+                        return;
+                }
                 rr.fail("C16.kernel_disagrees_with_base", strf("%s(len %zu): dispatched result %llx, portable base implementation %llx", fn, len, (unsigned long long) got, (unsigned long long) want));
         }
 
@@ -86,6 +94,15 @@ struct Kern {
                 uint64_t seed = (uint64_t) o.ai(3);
                 int sub = (int) ((uint64_t) o.ai(4) % 64);
                 Rng r(seed, "kern.data");
+                t_iu = IntUpper();
+                t_iu_used = false;
+                if (o.a.size() > 5 && o.a[5].a.size() >= 3) {
+                        t_iu.dirt = (uint32_t) o.a[5].ai(0);
+                        t_iu.mask = (uint32_t) o.a[5].ai(1) & 15;
+                        t_iu.all = o.a[5].ai(2) != 0;
+                        if (t_iu.dirt)
+                                COUNT("abi.ops_with_dirty_int_registers");
+                }
                 opn++;
                 if (len < 64 || (len & 63))
                         h.unusual++; // a vector-width remainder next to a guard page
@@ -126,7 +143,7 @@ struct Kern {
                                 break;
                         case 3:
                                 fn = "crc32_iscsi";
-                                f = GUARDED(gc, got = crc32_iscsi(s->data, (int) len, init));
+                                f = GUARDED(gc, got = (uint32_t) ABI_CALL(crc32_iscsi, s->data, iarg("crc32_iscsi", 1, (int) len), iarg("crc32_iscsi", 2, (int) init), 0, 0, 0, 0));
                                 want = crc32_iscsi_base(s->data, (int) len, init);
                                 break;
                         case 4:
@@ -257,7 +274,7 @@ struct Kern {
                         }
                         int g1 = 0, g2 = 0, c1 = 0, c2 = 0;
                         const char *fn = pq ? "pq_gen" : "xor_gen";
-                        if (GUARDED(gc, g1 = pq ? pq_gen(vects, (int) l, a) : xor_gen(vects, (int) l, a)))
+                        if (GUARDED(gc, g1 = (int) ABI_CALL(pq ? (void *) pq_gen : (void *) xor_gen, iarg(fn, 0, vects), iarg(fn, 1, (int) l), a, 0, 0, 0, 0)))
                                 return fault(fn);
                         g2 = pq ? pq_gen_base(vects, (int) l, a2) : xor_gen_base(vects, (int) l, a2);
                         uint64_t ph = 0;
@@ -300,7 +317,7 @@ struct Kern {
                                         }
                         }
                         const char *fc = pq ? "pq_check" : "xor_check";
-                        if (GUARDED(gc, c1 = pq ? pq_check(vects, (int) l, a) : xor_check(vects, (int) l, a)))
+                        if (GUARDED(gc, c1 = (int) ABI_CALL(pq ? (void *) pq_check : (void *) xor_check, iarg(fc, 0, vects), iarg(fc, 1, (int) l), a, 0, 0, 0, 0)))
                                 return fault(fc);
                         c2 = pq ? pq_check_base(vects, (int) l, a2) : xor_check_base(vects, (int) l, a2);
                         h.rec(fn, { vects, (int64_t) l, g1, c1 != 0, (int64_t) ph });
@@ -345,13 +362,13 @@ struct Kern {
                         if (kind == 5) {
                                 if (GUARDED(gc, {
                                             ec_init_tables(k, rows, sc->data, st->data);
-                                            ec_encode_data((int) l, k, rows, st->data, src, dst);
+                                            ABI_CALL(ec_encode_data, iarg(fn, 0, (int) l), iarg(fn, 1, k), iarg(fn, 2, rows), st->data, src, dst, 0);
                                     }))
                                         return fault(fn);
                         } else {
                                 if (GUARDED(gc, {
                                             ec_init_tables_base(k, rows, sc->data, st->data);
-                                            gf_vect_dot_prod((int) l, k, st->data, src, dst[0]);
+                                            ABI_CALL(gf_vect_dot_prod, iarg(fn, 0, (int) l), iarg(fn, 1, k), st->data, src, dst[0], 0, 0);
                                     }))
                                         return fault(fn);
                         }
@@ -406,14 +423,14 @@ struct Kern {
                         if (which == 0) {
                                 if (GUARDED(gc, {
                                             ec_init_tables(k, rows, sc->data, st->data);
-                                            ec_encode_data_update((int) l, k, rows, vi, st->data, src->data, dst);
+                                            ABI_CALL(ec_encode_data_update, iarg(fn, 0, (int) l), iarg(fn, 1, k), iarg(fn, 2, rows), iarg(fn, 3, vi), st->data, src->data, dst);
                                     }))
                                         return fault(fn);
                                 ec_init_tables_base(k, rows, sc->data, stb->data);
                                 ec_encode_data_update_base((int) l, k, rows, vi, stb->data, src->data, dstb);
                         } else if (which == 1) {
                                 ec_init_tables_base(k, rows, sc->data, stb->data);
-                                if (GUARDED(gc, gf_vect_mad((int) l, k, vi, stb->data, src->data, dst[0])))
+                                if (GUARDED(gc, ABI_CALL(gf_vect_mad, iarg(fn, 0, (int) l), iarg(fn, 1, k), iarg(fn, 2, vi), stb->data, src->data, dst[0], 0)))
                                         return fault(fn);
                                 gf_vect_mad_base((int) l, k, vi, stb->data, src->data, dstb[0]);
                                 rows = 1;
@@ -421,7 +438,7 @@ struct Kern {
                                 if (((uintptr_t) src->data & 31) || ((uintptr_t) d[0]->data & 31))
                                         return true;
                                 gf_vect_mul_init(coef[0], stb->data);
-                                if (GUARDED(gc, mr = gf_vect_mul((int) l, stb->data, src->data, dst[0])))
+                                if (GUARDED(gc, mr = (int) ABI_CALL(gf_vect_mul, iarg(fn, 0, (int) l), stb->data, src->data, dst[0], 0, 0, 0)))
                                         return fault(fn);
                                 gf_vect_mul_base((int) l, stb->data, src->data, dstb[0]);
                                 rows = 1;
@@ -655,6 +672,20 @@ static Json gen_kern(Rng &r0, const std::string &focus, int tier)
         mem.set("fill", r.u64() >> 24).set("regs", r.chance(1, 3) ? 0 : r.u64() >> 24).set("skip", r.chance(1, 2) ? 0 : (int) r.below(4096));
         p.set("mem", mem);
         maybe_swarm_cpu(r, p, 1, 10);
+        // caller-ABI seam: now and then an operation's int arguments arrive with garbage in the upper half of their registers.  While
+        // finding F15 is open the entry points it lists are passed clean (the list was established for the host's own dispatch, so runs
+        // under a simulated CPU carry no garbage either).
+        if (!p.find("cpu") || std::find(g_avoid.begin(), g_avoid.end(), "F15") == g_avoid.end()) {
+                bool all = std::find(g_avoid.begin(), g_avoid.end(), "F15") == g_avoid.end();
+                Json &ops = *const_cast<Json *>(p.find("ops"));
+                for (auto &o : ops.a)
+                        if (r.chance(1, 6)) {
+                                static const uint32_t dirts[] = { 1, 0x80000000u, 0xffffffffu, 0x00010000u };
+                                Json u = Json::arr();
+                                u.push(r.chance(1, 2) ? r.pick(dirts) : (uint32_t) (r.u64() | 1)).push((int) (1 + r.below(15))).push((int) all);
+                                o.push(u);
+                        }
+        }
         (void) tier;
         return p;
 }
